@@ -249,7 +249,7 @@ pub fn sim_case(ctx: &mut Ctx, case: u64, cfg: GenCfg) {
             if let Some((path, arity, skipped)) = pool.choose(&mut rng).cloned() {
                 if !d.substitutes.iter().any(|(f, _)| f.split('<').next() == Some(path.as_str())) {
                     let names: Vec<String> = (0..arity).map(|i| format!("P{i}")).collect();
-                    let first_has_arg = r.types.iter().filter(|t| t.ty.path.segments.join("::") == path).all(|t| t.ty.type_params[0].ty.is_some());
+                    let first_has_arg = r.types.iter().filter(|t| t.ty.path.segments.join("::") == path).all(|t| t.ty.type_params.first().map(|p| p.ty.is_some()).unwrap_or(false));
                     let to = if first_has_arg && rng.gen_bool(0.5) { format!("::ext::declared::S<{}>", names[0]) } else { "::ext::declared::S".to_string() };
                     d.substitutes.push((format!("{path}<{}>", names.join(", ")), to));
                     ctx.count("rules_with_declared_generics", 1);
